@@ -6,4 +6,8 @@ RULES = [
     ("C15-F2", "a function with a local Memory called twice: the memory id is derived from the bare name, so both "
                "call sites share one cell instead of getting their own copy",
      lambda c, d: c.get("kind") == "memory" and c["args"] == "two-calls"),
+    ("C15-F3", "an integer literal bound to a Signal parameter is materialised on a compiler-chosen signal and wired to the "
+               "comparison; a comparison result of that type that is later added to the other argument reads the constant's "
+               "wire as well: g(2, a) with body '(x > y) * 2 + y' yields 2 too much (wire cross-talk, same root cause as C01-F8)",
+     lambda c, d: c["f"] == "mixed-cmp-arith" and c["args"].startswith("lit,")),
 ]
